@@ -2003,7 +2003,7 @@ Proof.
   set (head := T ++ 47 :: S).
   replace (T ++ 47 :: S ++ h0 ++ concat (map (fun o => 59 :: render_oparam o) os))
     with ((head ++ h0) ++ concat (map (fun x => 59 :: x) (map render_oparam os))).
-  2:{ unfold head. rewrite map_map. rewrite <- !app_assoc. cbn [app]. rewrite <- app_assoc. reflexivity. }
+  2:{ unfold head. rewrite map_map. rewrite <- !app_assoc. cbn [app]. rewrite <- ?app_assoc. reflexivity. }
   assert (Hhead59 : ~ In 59 (head ++ h0)).
   { unfold head. intros Hin. apply in_app_or in Hin as [Hin|Hin].
     - apply in_app_or in Hin as [Hin|Hin].
@@ -2030,9 +2030,9 @@ Proof.
     unfold head. rewrite ES.
     replace (((t0 :: T') ++ 47 :: S' ++ [sl]) ++ h0)
       with ([] ++ (t0 :: (T' ++ 47 :: S') ++ [sl]) ++ h0).
-    2:{ cbn [app]. f_equal. rewrite <- !app_assoc. cbn [app]. reflexivity. }
+    2:{ cbn [app]. rewrite <- ?app_assoc. cbn [app]. rewrite <- ?app_assoc. cbn [app]. reflexivity. }
     rewrite trim_piece; [|reflexivity|exact Hh0|apply token_not_ws, Ht0|apply token_not_ws, Hsl].
-    cbn [app]. f_equal. rewrite <- app_assoc. reflexivity. }
+    cbn [app]. rewrite <- ?app_assoc. cbn [app]. reflexivity. }
   rewrite Hth, join_semi_cons. unfold head. rewrite <- app_assoc. cbn [app]. do 2 f_equal.
   f_equal.
   (* each piece trims to its core, and "; core" is the canonical rendering *)
